@@ -135,6 +135,24 @@ def ref_function(c):
                 out.append((m - rhs) * sc)
             return out
         return f
+    if k in ('eqmulti', 'balmulti'):
+        eqs = c['eqs']
+
+        def f(x):
+            out, o = [], 0
+            for eq in eqs:
+                N, norm, um = eq['n'], eq['normalize'], eq['use_mult']
+                for e in range(N):
+                    lhs, rhs = x[o + e], x[o + N + e]
+                    if norm:
+                        sc = 1 / (Fraction(1, 4) * rhs * rhs + 1) if abs(rhs.v) < 2 else 1 / dabs(rhs)
+                    else:
+                        sc = Dual(1, n=len(x))
+                    m = x[o + 2 * N + e] * lhs if um else lhs
+                    out.append((m - rhs) * sc)
+                o += (3 if um else 2) * N
+            return out
+        return f
     if k == 'linsys':
         vs, size, vecA = c['vs'], c['size'], c['vecA']
         mat = size * size
@@ -207,6 +225,35 @@ def build(c):
         if c['use_mult']:
             env.append(('in', 'mult:y', (N,)))
         return comp, env, ['y'], True
+    if k in ('eqmulti', 'balmulti'):
+        env, names = [], []
+        comp = None
+        for i, eq in enumerate(c['eqs']):
+            N, nm = eq['n'], 'y%d' % i
+            if k == 'eqmulti':
+                kw = dict(use_mult=eq['use_mult'], normalize=eq['normalize'], shape=(N,))
+                if eq['use_mult']:
+                    kw['mult_val'] = float(fr(eq['mult_val']))
+                if i == 0 and c.get('ctor'):
+                    comp = om.EQConstraintComp(nm, **kw)
+                else:
+                    comp = comp or om.EQConstraintComp()
+                    comp.add_eq_output(nm, **kw)
+            else:
+                kw = dict(use_mult=eq['use_mult'], normalize=eq['normalize'], val=np.ones(N),
+                          rhs_val=float(fr(eq['rhs_val'])))
+                if eq['use_mult']:
+                    kw['mult_val'] = float(fr(eq['mult_val']))
+                if i == 0 and c.get('ctor'):
+                    comp = om.BalanceComp(nm, **kw)
+                else:
+                    comp = comp or om.BalanceComp()
+                    comp.add_balance(nm, **kw)
+            env += [('in', 'lhs:' + nm, (N,)), ('in', 'rhs:' + nm, (N,))]
+            if eq['use_mult']:
+                env.append(('in', 'mult:' + nm, (N,)))
+            names.append(nm)
+        return comp, env, names, k == 'balmulti'
     if k == 'linsys':
         vs, size, vecA = c['vs'], c['size'], c['vecA']
         comp = om.LinearSystemComp(size=size, vec_size=vs, vectorize_A=vecA)
@@ -294,6 +341,8 @@ def handle(c):
                 if not ok:
                     break
     res = {'outs': [q(v) for v in outs], 'ncols': ncols, 'jac': [q(v) for row in Jf for v in row]}
+    if c['comp'] in ('eqmulti', 'balmulti'):
+        res = '__none__'      # several equations on one component: oracle only
     return {'res': res, 'ok': ok, 'msg': msg, 'sig': kind, 'kind': kind}
 
 
